@@ -344,9 +344,15 @@ class Gen:
             ppr += '<w:sectPr><w:pgSz w:w="12240" w:h="15840"/><w:cols w:space="720"/></w:sectPr>'
             self.features.add("sect_break")
         if self.chance("para_mark_rev"):
-            self.pm_rev = getattr(self, "pm_rev", 900) + 1
             kind = r.choice(["ins", "del"])
-            ppr += f'<w:rPr><w:{kind} w:id="{self.pm_rev}" w:author="Alice" w:date="2024-01-05T10:00:00Z"/></w:rPr>'
+            if r.random() < 0.5:
+                # numbered in sequence with the text revisions (as Word does): a mark without text may hold the highest id
+                self.rev_id += 1
+                pm = self.rev_id
+            else:
+                self.pm_rev = getattr(self, "pm_rev", 900) + 1
+                pm = self.pm_rev
+            ppr += f'<w:rPr><w:{kind} w:id="{pm}" w:author="Alice" w:date="2024-01-05T10:00:00Z"/></w:rPr>'
             self.features.add("para_mark_rev")
         return {"style": r.choice([None, None, None, "ListParagraph", "Normal"]), "ppr": ppr, "nodes": self.para_nodes(**kw)}
 
